@@ -160,16 +160,16 @@ Definition cli_run (args : list string) (tr1 : list event) (env : cli_env) : cli
       let w2 := emit_written 0 (e_make env) in
       let n := length (e_make env) in
       let lat := r_latch r1 || r_latch r2 in
-      let dl := r_delivered r1 ++ r_delivered r2 in
+      let dl := (r_delivered r1 ++ r_delivered r2)%list in
       match r_leave r2 with
       | LNormal =>
           match e_out env with
           | PFail => mk_cli cli_exit_on_write_error w2 lat dl
           | PCrash => mk_cli cli_exit_on_internal_error w2 lat dl
-          | o => let w3 := w2 ++ (match o with POk => [n] | _ => [] end) in
+          | o => let w3 := (w2 ++ (match o with POk => [n] | _ => [] end))%list in
                  match e_lst env with
                  | PNone => mk_cli 0 w3 lat dl
-                 | POk => mk_cli 0 (w3 ++ [S n]) lat dl
+                 | POk => mk_cli 0 (w3 ++ [S n])%list lat dl
                  | PFail => mk_cli cli_exit_on_write_error w3 lat dl
                  | PCrash => mk_cli cli_exit_on_internal_error w3 lat dl
                  end
